@@ -623,7 +623,9 @@ class CrashWorld(World):
             if self.restarted:
                 raise Violation("progress_after_restart", "after an injected fault (crash and restart, or a failed flush) the store rejected a valid %s: %r" % (self.cur_op, out["exc"]), {"op": self.cur_op})
             raise Abandon("valid %s raised %r" % (self.cur_op, out["exc"]), "C02")
-        m.returned(bucket_level, self.autocommit)
+        # a rejected call completes nothing: it raised without committing, so whatever an earlier failed flush left in
+        # the open transaction is still not durable-by-contract
+        m.returned(bucket_level, self.autocommit and not expect_reject)
         if self.diagnose and self.live_hash() != m.hashes[ORDERS[0]][m.n]:
             # diagnostic replay (reads after every op): what the live connection shows is not what the
             # reference write log says this operation did -- a functional defect, not a crash matter
